@@ -349,6 +349,11 @@ impl Scenario for C07 {
         let lg_sizes: Vec<u8> = (0..nn).map(|_| if mixed { rng.range(lo, hi) as u8 } else { base }).collect();
         let domain = *rng.pick(&[16u32, 40, 100, 400, 1500]);
         let mut acts = vec![];
+        if rng.chance(1, 40) {
+            // a count beyond i64::MAX (valid for the u64 counters; the total still fits u64): the
+            // node that takes it keeps updating, purging, checkpointing and restarting
+            acts.push(Act::Update { n: rng.below(nn as u64) as u8, item: rng.below(domain as u64) as u32, w: u64::MAX });
+        }
         let steps = 5 + rng.usize_below(40);
         for _ in 0..steps {
             match rng.below(20) {
@@ -456,9 +461,14 @@ impl Scenario for C07 {
             match act {
                 Act::Update { n, item, w } => {
                     let nd = &mut nodes[*n as usize % nn];
-                    let w = (*w).clamp(1, 1 << 44);
-                    if nd.truth.total > (1 << 62) {
-                        continue; // keep the documented precondition: total weight < 2^64
+                    // u64::MAX marks the one very heavy update of a run: a count beyond i64::MAX
+                    let w = if *w == u64::MAX { (1u64 << 63) + *item as u64 * 17 } else { (*w).clamp(1, 1 << 44) };
+                    // keep the documented precondition: total weight < 2^64
+                    if nd.truth.total.checked_add(w).is_none_or(|t| t > u64::MAX - (1 << 50)) {
+                        continue;
+                    }
+                    if w >= 1 << 63 {
+                        st.probe("fi_count_beyond_i64_max");
                     }
                     lib_call("update_with_count", || nd.sk.update(*item, w))?;
                     nd.truth.add(*item, w);
